@@ -156,11 +156,13 @@ CLAIMED = {
        "types are invariant under matches, so a cell reached at static type `mut c` has a declared type == c. "
        "STAGES 5-6 add `for x in it body` over iterators `() -> (bool, T)`, tuple destructuring, and the operators on operands of a UNION "
        "type through the implementation's type queries: `u[i]` (index_result), `u.N` (tuple_element_at), `*u` (mut_element_type), `u(args)` "
-       "(arguments against params(), result return_type()), `u = v` (mut_assign_type), slices of unions of indexable types, and `it $]` (collecting a "
-       "hand-written iterator). Thm/C01StU proves, for unions of any number of members, "
+       "(arguments against params(), result return_type()), `u = v` (mut_assign_type), slices of unions of indexable types, `it $]` (collecting a "
+       "hand-written iterator), struct literals (a repeated field name keeps its last initialiser) and field access, also on unions of struct "
+       "types (Thm/C01StS: the literal's value tag matches its type field by field; a value of a struct type has every field the type demands). "
+       "Thm/C01StU proves, for unions of any number of members, "
        "that a join-folded query answers above every member's answer and the meet-folded params() / mut_assign_type() below every member's, and "
        "that a good value of a union type is a value of one member; each union case of the outcome theorem reduces to the member's case. "
-       "Outside the fragment (structs, the built-in iterator operators - blocked by the open finding F14 -, inferred `mut e`, compound assignment on unions) the "
+       "Outside the fragment (the built-in iterator operators - blocked by the open finding F14 -, modules, inferred `mut e`, compound assignment on unions) the "
        "evaluator-level statement is NOT proved: for the "
        "running code it is decided by the in-crate monitor (feature `verif`), which judges the result of every executed "
        "instruction (~140k per quick run) against that instruction's own return_type() by tag and by contents, on generated "
@@ -187,7 +189,7 @@ CLAIMED = {
        "break / continue outside a loop - a typed program ends in a value of its type, a documented error or fuel exhaustion; with `for` over "
        "hand-written iterators, tuple destructuring, and index / tuple access / `*` / call / `=` on operands of union types (no call of a "
        "non-function, no index into a non-indexable member, no store of a value the selected cell does not admit). "
-       "Progress outside the fragment (built-in iterator operators, structs) is NOT "
+       "Progress outside the fragment (built-in iterator operators, modules) is NOT "
        "proved: for the running code it is decided "
        "by panic hook + catch_unwind + worker exit status on generated programs, scoping / control-flow templates, iterator "
        "pipelines, assignment histories and host calls (admissible vectors must run, inadmissible ones must be rejected).",
